@@ -4,7 +4,13 @@ Two parts.
 
 (C) full product image x centre x radii x (user mask x non-finite input x
     cover) x error x method (x units) for ``CurveOfGrowth`` and
-    ``RadialProfile``; non-finite pixels (NaN, +inf, -inf in the data; NaN,
+    ``RadialProfile``; the centre x radii alphabet has a general part (five
+    centres x radii lists, including circles larger than the image) and an
+    image-edge part built from the geometry of the (non-square) pixel grid:
+    centres 4.5 / 4.2 px from each of the four true edges (-0.5, n - 0.5) and
+    the four corners, with radii that end the circle 1, 0.75, ... px before,
+    exactly on, and ... 0.75, 1 px beyond that edge (so also on the naive
+    edges 0 / n / n - 1 and in the quarter-pixel windows between them); non-finite pixels (NaN, +inf, -inf in the data; NaN,
     +inf in the error map at pixels with finite data; both) occur without a
     user mask, with a user mask that does not cover them and with one that
     does -- they are documented to be masked automatically, so the reference
@@ -46,15 +52,22 @@ from ..snapshot import key as state_key
 
 PROPERTY = 'C19'
 LEVEL = 'exploration'
-RULE = ('(C) full product: image {non-negative, signed, constant, ring} x centre {middle, half-pixel, generic, 2 px '
-        'from the edge, 1 px outside} x radii {integers from 0, integers from 1, non-uniform from 0, 20 fine steps} x '
+RULE = ('(C) full product: image {non-negative, signed, constant, ring} x [centre {middle, half-pixel, generic, 2 px '
+        'from the edge, 1 px outside} x radii {integers from 0, integers from 1, non-uniform from 0, 20 fine steps, '
+        'beyond the image: a circle leaving on all four sides and circles containing the whole image} + image-edge '
+        'geometry on the 21 x 23 (not square) image: centre {4.5 px (a pixel centre), 4.2 px (generic)} from the true '
+        'pixel-grid edge x edge {left, right, bottom, top}, and the 4 corners at (4.5, 3.5) px, each with the radii '
+        '0, 2 and (edge distance + o), o in {-1, -0.75, ..., +0.75, +1}: the circle ends before / on / beyond the '
+        'true edge (-0.5, n-0.5), on the naive edges half a pixel inside and outside it (0 or n-1, n or -1) and in '
+        'the open quarter-pixel windows between them; thorough: those 12 centres also x all general radii lists] x '
         'error {none, map} x [user mask {none, wedge} x non-finite input {none, data (NaN, +inf, -inf pixels), error map '
         '(NaN, +inf at pixels with finite data), both} x cover {non-finite pixels outside the user mask, also True in '
         'the user mask}] (16 existing combinations: non-finite error needs an error map, cover needs a user mask and '
         'non-finite pixels; the reference masks user mask | non-finite data | non-finite error) x method {exact, '
         'center, subpixel 5, subpixel 2} '
         'x class {CurveOfGrowth, RadialProfile} (+ units on the exact method); a case is non-trivial when the '
-        'largest circle is cut by the image edge or by masked pixels, or the radii are not uniform. '
+        'largest circle is cut by the image edge (true extent [-0.5, n-0.5]) or by masked pixels, or the radii are '
+        'not uniform. '
         '(A) BFS over histories of normalize(max|sum)/unnormalize/first reads/(CurveOfGrowth) calc_ee_at_radius(all '
         'sampled radii)/calc_radius_at_ee(curve values on the strictly increasing prefix) from the full product of roots class '
         '{RadialProfile, CurveOfGrowth} x error map {yes, no} x units {no, yes} x image {positive (max>0, sum>0), '
@@ -78,11 +91,49 @@ ASSUMPTIONS = ['numpy, scipy PchipInterpolator are trusted; photutils.geometry k
                'equal the fresh one, sign included']
 
 EPS = np.finfo(float).eps
-SHAPE = (21, 23)
+SHAPE = (21, 23)          # (ny, nx): not square, so that a test mixing up nx and ny shows
 CENTRES = {'middle': (11.0, 10.0), 'half': (11.5, 9.5), 'generic': (10.3, 11.7), 'edge2': (2.0, 10.0), 'outside': (-1.0, 10.0)}
 RADII = {'int0': [0, 1, 2, 3, 4, 5, 6, 7], 'int1': [1, 2, 3, 4, 5, 6, 7], 'nonuniform': [0, 0.7, 1.5, 3.1, 4.0, 7.3],
          'fine': [round(0.1 + 0.1 * k, 10) for k in range(20)]}
+# 'beyond': circles that leave the image on all four sides (r = 13 from the middle) and circles that contain the whole
+# image (r = 18, 40: the far corner is <= 15.6 px from the four inner centres, 29 px from 'outside')
+RADII['beyond'] = [0, 6, 13, 18, 40]
 RADII_THOROUGH = dict(RADII, wide=[0, 2, 5, 9, 12.5], fine2=[round(0.25 * k, 10) for k in range(1, 25)])
+
+# ---- image-edge geometry: centres near each of the four edges / corners with radii built from the edge distance.
+# The pixel grid of an (ny, nx) image spans [-0.5, nx - 0.5] x [-0.5, ny - 0.5] (the TRUE edges); the naive extents
+# [0, n] and [0, n - 1] (pixel-centre range) lie half a pixel beyond / inside them.  For a centre at distance D from a
+# true edge the radii D + o, o in EDGE_OFFSETS, put the extreme point of the circle at outward distance o from that
+# true edge: o = -0.5 / +0.5 are the two naive edges, 0 the true one, +-0.25 / +-0.75 the open windows between and
+# around them, +-1 the next pixel centres / edges.
+EDGE_OFFSETS = (-1.0, -0.75, -0.5, -0.25, 0.0, 0.25, 0.5, 0.75, 1.0)
+EDGE_DIST = {'px': 4.5, 'gen': 4.2}         # distance of the centre from the true edge: a pixel centre / a generic point
+EDGE_OTHER = {'px': (11.0, 10.0), 'gen': (11.3, 10.4)}   # (x, y) used for the coordinate along the edge (mid image)
+CORNER_DIST = (4.5, 3.5)                   # corners: (distance in x, distance in y), both pixel centres
+
+
+def _edge_centres():
+    ny, nx = SHAPE
+    cen, rad = {}, {}
+    for kind, D in EDGE_DIST.items():
+        ox, oy = EDGE_OTHER[kind]
+        for sd, xy in (('left', (-0.5 + D, oy)), ('right', (nx - 0.5 - D, oy)),
+                       ('bottom', (ox, -0.5 + D)), ('top', (ox, ny - 0.5 - D))):
+            name = f'{sd}-{kind}'
+            cen[name] = (round(xy[0], 10), round(xy[1], 10))
+            rad[name] = [0, 2] + [round(D + o, 10) for o in EDGE_OFFSETS]
+    dx, dy = CORNER_DIST
+    for sy, yc in (('bottom', -0.5 + dy), ('top', ny - 0.5 - dy)):
+        for sx, xc in (('left', -0.5 + dx), ('right', nx - 0.5 - dx)):
+            name = f'{sy}-{sx}-corner'
+            cen[name] = (xc, yc)
+            rad[name] = [0, 2] + sorted({round(d + o, 10) for d in CORNER_DIST for o in EDGE_OFFSETS})
+    return cen, rad
+
+
+EDGE_CENTRES, EDGE_RADII = _edge_centres()
+ALL_CENTRES = dict(CENTRES, **EDGE_CENTRES)
+RADII_ALL = dict(RADII_THOROUGH, **{f'edge:{c}': r for c, r in EDGE_RADII.items()})
 IMAGES = ('nonneg', 'signed', 'const', 'ring')
 MASKS = ('none', 'wedge')                          # the user's mask argument
 NONFINITE = ('none', 'data', 'error', 'both')      # which input carries non-finite pixels (documented: masked automatically)
@@ -104,7 +155,7 @@ def rng_for(seed, *tag):
 def make_image(kind, cname, seed):
     ny, nx = SHAPE
     yy, xx = np.mgrid[0:ny, 0:nx]
-    xc, yc = CENTRES[cname]
+    xc, yc = ALL_CENTRES[cname]
     r = np.hypot(xx - xc, yy - yc)
     if kind == 'const':
         return np.full(SHAPE, CONST)
@@ -123,7 +174,7 @@ def make_error(seed):
 
 def bad_pixels(cname, offsets):
     ny, nx = SHAPE
-    xc, yc = CENTRES[cname]
+    xc, yc = ALL_CENTRES[cname]
     return [((min(max(int(round(yc)) + dy, 0), ny - 1), min(max(int(round(xc)) + dx, 0), nx - 1)), v)
             for (dy, dx), v in offsets]
 
@@ -144,7 +195,7 @@ def make_mask(case, data, error):
     ny, nx = SHAPE
     cname = case['centre']
     yy, xx = np.mgrid[0:ny, 0:nx]
-    xc, yc = CENTRES[cname]
+    xc, yc = ALL_CENTRES[cname]
     user = None
     if case['mask'] == 'wedge':
         ang = np.arctan2(yy - yc, xx - xc)
@@ -181,7 +232,7 @@ class Ref:
     """Reference aperture sums for one (centre, method): weight maps cached per radius."""
 
     def __init__(self, cname, mname):
-        self.xc, self.yc = CENTRES[cname]
+        self.xc, self.yc = ALL_CENTRES[cname]
         self.method, self.sub = METHODS[mname]
         self.cache = {}
 
@@ -211,16 +262,20 @@ class Ref:
         return s, tol
 
 
+def largest_inside(ref, radii):
+    """Does the largest circle lie inside the true extent [-0.5, nx - 0.5] x [-0.5, ny - 0.5] of the pixel grid?"""
+    r = float(radii[-1])
+    return ref.xc - r >= -0.5 and ref.yc - r >= -0.5 and ref.xc + r <= SHAPE[1] - 0.5 and ref.yc + r <= SHAPE[0] - 0.5
+
+
 def cut_or_masked(ref, radii, good):
     w, amb = ref.w(radii[-1])
-    r = float(radii[-1])
-    inside = (ref.xc - r >= -0.5 and ref.yc - r >= -0.5 and ref.xc + r <= SHAPE[1] - 0.5 and ref.yc + r <= SHAPE[0] - 0.5)
-    return (not inside) or bool(((w > 0) & ~good).any())
+    return (not largest_inside(ref, radii)) or bool(((w > 0) & ~good).any())
 
 
 def radii_of(case):
     """CurveOfGrowth documents radii > 0: the leading 0 of an alphabet entry is dropped for it."""
-    r = RADII_THOROUGH[case['radii']]
+    r = RADII_ALL[case['radii']]
     return r[1:] if (case['cls'] == 'cog' and r[0] == 0) else r
 
 
@@ -237,7 +292,7 @@ def build_obj(cls, case, seed):
     method, sub = METHODS[case['method']]
     with warnings.catch_warnings():
         warnings.simplefilter('ignore')
-        obj = cls(d_in, CENTRES[case['centre']], np.array(radii_of(case), dtype=float), error=e_in,
+        obj = cls(d_in, ALL_CENTRES[case['centre']], np.array(radii_of(case), dtype=float), error=e_in,
                   mask=None if mask is None else mask.copy(), method=method, subpixels=sub)
     return obj, data, error, ~bad
 
@@ -262,6 +317,8 @@ def check_profile(acc, case, seed, refs):
         acc.violation('profile-raises', f'{case["cls"]}:{type(e).__name__}', case, repr(e), 'a profile')
         return
     nontrivial = cut_or_masked(ref, radii, good) or case['radii'] in ('nonuniform', 'fine', 'wide', 'fine2')
+    if case['centre'] in EDGE_CENTRES:
+        acc.counters['edge_geometry_cases'] += 1
     acc.case(nontrivial=nontrivial, sample=case if acc.evaluations % 401 == 7 else None)
     unit = bool(case.get('unit'))
     for nm, arr in (('profile', prof), ('profile_error', perr)):
@@ -292,7 +349,12 @@ def check_profile(acc, case, seed, refs):
         # different path through the mask combination then)
         pred = f'nonfinite-{nf}' + ('' if case['mask'] == 'none' else f'+usermask-{case.get("cover")}')
     else:
-        pred = ('masked' if case['mask'] != 'none' else ('cut-by-edge' if case['centre'] in ('edge2', 'outside') else 'interior'))
+        # 'near-edge' = a centre of the edge-geometry alphabet (circles end within +-1 px of an image edge; the first
+        # = smallest reported case names the side); otherwise by the largest circle: inside the true pixel-grid
+        # extent or cut by it
+        pred = ('masked' if case['mask'] != 'none' else
+                ('near-edge' if case['centre'] in EDGE_CENTRES else
+                 ('interior' if largest_inside(ref, radii) else 'cut-by-edge')))
 
     def cmp(name, got, want, tol, sel=None):
         if got.shape != want.shape:
@@ -675,9 +737,18 @@ def h_depth(tier):
 
 
 # ---------------------------------------------------------------------------- plan / run
+def radii_names(tier, cname):
+    """Radii alphabet of a centre: the general lists for the five general centres; an edge-geometry centre has its
+    own list built from its edge distance (thorough: and all general lists as well)."""
+    general = list(RADII_THOROUGH if tier == 'thorough' else RADII)
+    if cname in EDGE_CENTRES:
+        return [f'edge:{cname}'] + (general if tier == 'thorough' else [])
+    return general
+
+
 def product_cases(tier, cname, mname):
     for image in IMAGES:
-        for rname in (RADII_THOROUGH if tier == 'thorough' else RADII):
+        for rname in radii_names(tier, cname):
             for evar in ERRORS:
                 for mvar, nf, cv in mask_configs(evar):
                     for cls in ('cog', 'rp'):
@@ -692,7 +763,7 @@ def product_cases(tier, cname, mname):
 
 def plan(tier, seed):
     units = []
-    for cname in CENTRES:
+    for cname in ALL_CENTRES:
         for mname in METHODS:
             units.append({'kind': 'product', 'centre': cname, 'method': mname})
     for root in ROOTS:
@@ -741,8 +812,14 @@ def replay(case, seed):
 
 
 def describe(tier, seed):
-    return {'alphabet': {'image shape': list(SHAPE), 'images': list(IMAGES), 'centres (x, y)': {k: list(v) for k, v in CENTRES.items()},
-                         'radii': RADII_THOROUGH if tier == 'thorough' else RADII, 'user mask': list(MASKS), 'non-finite input': list(NONFINITE),
+    return {'alphabet': {'image shape (ny, nx)': list(SHAPE), 'images': list(IMAGES),
+                         'general centres (x, y)': {k: list(v) for k, v in CENTRES.items()},
+                         'general radii (x every general centre)': RADII_THOROUGH if tier == 'thorough' else RADII,
+                         'edge-geometry centres (x, y)': {k: list(v) for k, v in EDGE_CENTRES.items()},
+                         'edge-geometry radii (per centre: 0, 2, edge distance + offsets)': EDGE_RADII,
+                         'edge-geometry offsets (outward distance of the circle end from the true edge -0.5 / n-0.5)': list(EDGE_OFFSETS),
+                         'edge-geometry centres are combined with': ('their own radii list and every general radii list'
+                                                                     if tier == 'thorough' else 'their own radii list'), 'user mask': list(MASKS), 'non-finite input': list(NONFINITE),
                          'cover (user mask and non-finite pixels present)': list(COVER),
                          'mask combinations per error variant': {e: ['/'.join(c) for c in mask_configs(e)] for e in ERRORS},
                          'non-finite data pixels (dy, dx from the pixel nearest the centre)': [[list(o), repr(v)] for o, v in BAD_DATA],
